@@ -78,6 +78,9 @@ func sanitize(s string) string {
 
 func shortTypeName(t types.Type) string {
 	s := types.TypeString(t, func(p *types.Package) string { return p.Name() })
+	// byte and rune are aliases: one heap family per underlying type
+	s = strings.ReplaceAll(s, "byte", "uint8")
+	s = strings.ReplaceAll(s, "rune", "int32")
 	return sanitize(s)
 }
 
@@ -111,6 +114,20 @@ const prelude = `(set-option :smt.mbqi false)
 (assert (forall ((s Str) (i Int)) (! (and (<= 0 (strat s i)) (< (strat s i) 256)) :pattern ((strat s i)))))
 (assert (forall ((a Str) (b Str)) (! (= (strlen (strcat a b)) (+ (strlen a) (strlen b))) :pattern ((strcat a b)))))
 (declare-fun implements (Int Int) Bool)
+(declare-sort Bytes 0)
+(declare-fun blen (Bytes) Int)
+(declare-fun bat (Bytes Int) Int)
+(declare-fun bytes.of ((Array Int Int) Int Int) Bytes)
+(declare-fun bytes.diff (Bytes Bytes) Int)
+(declare-fun bytes.eq (Bytes Bytes) Bool)
+(declare-const bytes.empty Bytes)
+(assert (= (blen bytes.empty) 0))
+(assert (forall ((b Bytes)) (! (>= (blen b) 0) :pattern ((blen b)))))
+(assert (forall ((b Bytes) (i Int)) (! (and (<= 0 (bat b i)) (< (bat b i) 256)) :pattern ((bat b i)))))
+(assert (forall ((a (Array Int Int)) (o Int) (n Int)) (! (=> (>= n 0) (= (blen (bytes.of a o n)) n)) :pattern ((bytes.of a o n)))))
+(assert (forall ((a (Array Int Int)) (o Int) (n Int) (i Int)) (! (=> (and (<= 0 i) (< i n)) (= (bat (bytes.of a o n) i) (select a (+ o i)))) :pattern ((bat (bytes.of a o n) i)))))
+(assert (forall ((x Bytes) (y Bytes)) (! (= (bytes.eq x y) (= x y)) :pattern ((bytes.eq x y)))))
+(assert (forall ((x Bytes) (y Bytes)) (! (=> (and (= (blen x) (blen y)) (=> (and (<= 0 (bytes.diff x y)) (< (bytes.diff x y) (blen x))) (= (bat x (bytes.diff x y)) (bat y (bytes.diff x y))))) (= x y)) :pattern ((bytes.eq x y)))))
 `
 
 const ifaceNil = "(mk-iface 0 0)"
@@ -262,7 +279,11 @@ func (s *Sorts) declStruct(t types.Type, st *types.Struct) string {
 }
 
 func (s *Sorts) fieldAcc(sortName string, st *types.Struct, i int) string {
-	return sortName + "." + sanitize(st.Field(i).Name())
+	n := st.Field(i).Name()
+	if n == "_" {
+		n = fmt.Sprintf("_%d", i)
+	}
+	return sortName + "." + sanitize(n)
 }
 
 // zero returns the zero value term of a type.
